@@ -114,6 +114,16 @@ PY
   if [ $rc -eq 2 ]; then echo "[n1] exit 2: $(grep -m1 ERROR "$d/log" | cut -c1-160)"; else echo "[n1] FAILED (exit $rc)"; fails=$((fails+1)); fi
 }
 nightly_fatal
+# ---- C-PIN32: the 32-bit-only code that rule 14 drops
+sv q1 src/bigint.rs 's = s.replace("vec.try_push((x >> 32) as Limb).unwrap();", "vec.try_push((x >> 31) as Limb).unwrap();", 1)' omitted SrcBigint
+sv q2 src/bigint.rs 's = s.replace("    let small_step = if LIMB_BITS == 32 {\n        13", "    let small_step = if LIMB_BITS == 32 {\n        14", 1)' omitted SrcBigint
+sv q3 src/slow.rs 's = s.replace("    let step: usize = if LIMB_BITS == 32 {\n        9", "    let step: usize = if LIMB_BITS == 32 {\n        8", 1)' omitted SrcSlow
+sv q4 src/bigint.rs 's = s.replace("    let r0 = (r0 as u64) << 32;\n    let r1 = r1 as u64;\n    u64_to_hi64_1(r0 | r1)", "    let r0 = (r0 as u64) << 31;\n    let r1 = r1 as u64;\n    u64_to_hi64_1(r0 | r1)", 1)' omitted SrcBigint
+sv q5 src/bigint.rs 's = s.replace("        (v, n || nonzero($self, 3))", "        (v, n || nonzero($self, 2))", 1)' omitted SrcBigint
+sv q6 src/bigint.rs 's = s.replace("pub type Wide = u64;", "pub type Wide = u32;", 1)' omitted SrcBigint
+sv q7 src/bigint.rs 's = s.replace("        2 if LIMB_BITS == 32 => hi!(@2 x, rslc, u32, u32_to_hi64_2),", "        2 if LIMB_BITS == 32 => hi!(@1 x, rslc, u32, u32_to_hi64_1),", 1)' omitted SrcBigint
+sv q8 src/bigint.rs 's = s.replace("pub fn shl(x: &mut VecType, n: usize) -> Option<()> {", "pub fn shl(x: &mut VecType, n: usize) -> Option<()> {\n    if LIMB_BITS == 32 {\n        return None;\n    }", 1)' omitted SrcBigint
+sv q9 src/table_small.rs 's = s.replace("    4279965485, 329373468,", "    4279965486, 329373468,", 1)' omitted SrcBigint
 # ---- C-PRIM: the pinned primitives of num.rs (rule 10): every edit must be exit 2
 pin() {  # name  python-edit
   local n="$1" e="$2" d="$W/$1"
